@@ -312,6 +312,98 @@ impl FromStr for Grouper {
 }
 }
 
+pub mod selection_m {
+use vstd::prelude::*;
+use std::rc::Rc;
+use std::str::FromStr;
+use super::*;
+//@@ item src/selection.rs :: struct Selection
+//@@ enditem
+impl Selection {
+    pub closed spec fn g(&self) -> Rc<dyn Get> { self.getter }
+    pub closed spec fn title(&self) -> Seq<char> { (*self.name)@ }
+}
+impl SelectionParseError {
+    #[allow(non_snake_case)] #[verifier::external_body] pub fn ExpectingEquals(l: Location, c: char) -> Self { unimplemented!() }
+}
+// what may follow the expression of a --select: nothing (the title is the whole option text), or `=` and the title
+// (the rest of the text after `=` and white space). ANYTHING else is an error (C18).
+pub open spec fn select_text(t: Seq<char>) -> Option<(Rc<dyn Get>, Option<Seq<u8>>)> {
+    let p = text_pending(t);
+    let w = ws_run(p) as int;
+    match getter_at(p.subrange(w, p.len() as int)) {
+        Some(gn) => {
+            let q = p.subrange(w + gn.1, p.len() as int);
+            let a = q.subrange(ws_run(q) as int, q.len() as int);
+            if a.len() == 0 { Some((gn.0, None)) }
+            else if a[0] == Some(0x3du8) { let b = a.subrange(1, a.len() as int); Some((gn.0, Some(unwrap_all(b.subrange(ws_run(b) as int, b.len() as int))))) }
+            else { None }
+        },
+        None => None,
+    }
+}
+impl FromStr for Selection {
+    type Err = SelectionParseError;
+//@@ fn expr.selection.from_str = src/selection.rs :: impl FromStr for Selection :: fn from_str
+//@@ safety C18 C13 C05
+//@@ ret r
+//@@ rewrite try_io str_to_string
+//@@ header
+        ensures
+            // the getter is the one the shared expression reader builds from the option text (C13.shared); what follows the
+            // expression is nothing or `= title`, anything else is an error (C18); the title is the text after `=`, or the
+            // whole option text
+            r is Ok ==> (select_text(s@) matches Some(gt) && gt.0 == r->Ok_0.g()
+                && (gt.1 is None ==> r->Ok_0.title() == s@) && (gt.1 matches Some(b) ==> str_bytes(r->Ok_0.title()) == b)), // @obl EXPR.selection.text : C18 C13
+//@@ after "let mut reader = from_string(&source);"
+        let ghost p = text_pending(s@);
+        let ghost w = ws_run(p) as int;
+        proof { assert(reader.pending() =~= p); }
+//@@ after#1 "reader.eat_whitespace()?;"
+        proof { assert(reader.pending() =~= p.subrange(w, p.len() as int)); }
+//@@ after "let extractors = read_getter(&mut reader)?;"
+        let ghost gn = getter_at(p.subrange(w, p.len() as int))->0;
+        let ghost q = p.subrange(w + gn.1, p.len() as int);
+        proof { assert(reader.pending() =~= q); }
+//@@ after#2 "reader.eat_whitespace()?;"
+        let ghost a = q.subrange(ws_run(q) as int, q.len() as int);
+        proof { assert(reader.pending() =~= a); }
+//@@ after#3 "reader.eat_whitespace()?;"
+                let ghost b = a.subrange(1, a.len() as int);
+                let ghost c = b.subrange(ws_run(b) as int, b.len() as int);
+                proof {
+                    assert(reader.pending() =~= c);
+                    assert(no_fault(c)) by { assert forall|i: int| 0 <= i < c.len() implies (#[trigger] c[i]) is Some by {} }
+                    assert(a[0] == Some(0x3du8));
+                }
+//@@ loop 1
+                    invariant
+                        reader.wf(), reader.room(), advance(c, reader.pending()), no_fault(c),
+                        buf@ =~= unwrap_all(c.subrange(0, c.len() - reader.pending().len())),
+                    ensures reader.pending().len() == 0,
+                    decreases reader.pending().len(),
+//@@ loop-start 1
+                    let ghost k = c.len() - reader.pending().len();
+                    proof {
+                        assert(reader.pending() =~= c.subrange(k, c.len() as int));
+                        assert(reader.cur() == Some(ch));
+                        assert(reader.pending()[0] == reader.cur());
+                        assert(c[k] == Some(ch));
+                    }
+//@@ loop-end 1
+                    proof {
+                        assert(reader.pending() =~= c.subrange(k + 1, c.len() as int));
+                        assert(unwrap_all(c.subrange(0, k)).push(ch) =~= unwrap_all(c.subrange(0, k + 1)));
+                    }
+//@@ after-loop 1
+                proof {
+                    assert(reader.pending().len() == 0);
+                    assert(c.subrange(0, c.len() as int) =~= c);
+                }
+//@@ endfn
+}
+}
+
 
 // ---- FunctionDefinitions::create: the arity check (C18). The function pointer field is the opaque stand-in `Factory`.
 pub mod fdef {
